@@ -11,38 +11,68 @@ import CalmVerif.Proofs.LRSound
 namespace CalmVerif.Model.GrammarFacts
 open CalmVerif.Model.LR
 
-/-- the entry of `row` on `term`, if any, reduces a production `function_declaration | function_expr → … }` -/
-def functionEndEntry (g : GT) (row : List Nat) (term : Nat) : Bool :=
+/-- evaluate `n` to a numeral before handing it on (the kernel evaluates by name: without this every use of a
+    terminal index would redo the string search in the terminal list) -/
+def forceNat {α : Type} (n : Nat) (k : Nat → α) : α :=
+  match n with
+  | 0 => k 0
+  | m + 1 => k (m + 1)
+
+theorem forceNat_eq {α : Type} (n : Nat) (k : Nat → α) : forceNat n k = k n := by
+  cases n <;> rfl
+
+/-- the entry of `row` on `term`, if any, reduces a production `function_declaration | function_expr → … }`
+    (`fd`, `fe`: indices of the two nonterminals, `rb`: index of `}`) -/
+def functionEndEntryI (g : GT) (fd fe rb : Nat) (row : List Nat) (term : Nat) : Bool :=
   match lookupFlat row term with
   | none => true
   | some code =>
     match decodeAct code with
     | .reduce p =>
       match g.prods[p]? with
-      | some (lhs, rhs) =>
-        (g.nonterminals[lhs]? == some "function_declaration" || g.nonterminals[lhs]? == some "function_expr") &&
-          rhs.getLast? == some (g.term "RBRACE")
+      | some (lhs, rhs) => (lhs == fd || lhs == fe) && rhs.getLast? == some rb
       | none => false
     | _ => false
 
+def functionEndEntry (g : GT) (row : List Nat) (term : Nat) : Bool :=
+  functionEndEntryI g (g.nonterm "function_declaration") (g.nonterm "function_expr") (g.term "RBRACE") row term
+
 def rowHas (row : List Nat) (term : Nat) : Bool := (lookupFlat row term).isSome
+
+def slashRowOKI (g : GT) (dv de rx fd fe rb : Nat) (row : List Nat) : Bool :=
+  !((rowHas row dv || rowHas row de) && rowHas row rx) ||
+    (functionEndEntryI g fd fe rb row dv && functionEndEntryI g fd fe rb row de && functionEndEntryI g fd fe rb row rx)
 
 /-- a row is fine if it does not accept both classes, or all its `/`-entries are function-end reductions -/
 def slashRowOK (g : GT) (row : List Nat) : Bool :=
-  !((rowHas row (g.term "DIV") || rowHas row (g.term "DIVEQUAL")) && rowHas row (g.term "REGEX")) ||
-    (functionEndEntry g row (g.term "DIV") && functionEndEntry g row (g.term "DIVEQUAL") &&
-      functionEndEntry g row (g.term "REGEX"))
+  slashRowOKI g (g.term "DIV") (g.term "DIVEQUAL") (g.term "REGEX") (g.nonterm "function_declaration")
+    (g.nonterm "function_expr") (g.term "RBRACE") row
 
 def slashExclusive (g : GT) : Bool :=
   g.terminals.contains "DIV" && g.terminals.contains "DIVEQUAL" && g.terminals.contains "REGEX" &&
+    g.nonterminals.contains "function_declaration" && g.nonterminals.contains "function_expr" &&
     allFrom (fun _ row => slashRowOK g row) 0 g.action
 
+/-- the same check with the six indices evaluated once -/
+def slashExclusiveF (g : GT) : Bool :=
+  g.terminals.contains "DIV" && g.terminals.contains "DIVEQUAL" && g.terminals.contains "REGEX" &&
+    g.nonterminals.contains "function_declaration" && g.nonterminals.contains "function_expr" &&
+    forceNat (g.term "DIV") fun dv => forceNat (g.term "DIVEQUAL") fun de => forceNat (g.term "REGEX") fun rx =>
+    forceNat (g.nonterm "function_declaration") fun fd => forceNat (g.nonterm "function_expr") fun fe =>
+    forceNat (g.term "RBRACE") fun rb => allFrom (fun _ row => slashRowOKI g dv de rx fd fe rb row) 0 g.action
+
+theorem slashExclusiveF_eq (g : GT) : slashExclusiveF g = slashExclusive g := by
+  simp only [slashExclusiveF, slashExclusive, forceNat_eq, slashRowOK]
+
 /-- the states that accept both classes (for the non-vacuity statement) -/
-def slashBothFrom (g : GT) : Nat → List (List Nat) → List Nat
+def slashBothFrom (dv de rx : Nat) : Nat → List (List Nat) → List Nat
   | _, [] => []
   | s, row :: rows =>
-    (if (rowHas row (g.term "DIV") || rowHas row (g.term "DIVEQUAL")) && rowHas row (g.term "REGEX") then [s] else []) ++
-      slashBothFrom g (s + 1) rows
+    (if (rowHas row dv || rowHas row de) && rowHas row rx then [s] else []) ++ slashBothFrom dv de rx (s + 1) rows
+
+def slashBoth (g : GT) : List Nat :=
+  forceNat (g.term "DIV") fun dv => forceNat (g.term "DIVEQUAL") fun de => forceNat (g.term "REGEX") fun rx =>
+    slashBothFrom dv de rx 0 g.action
 
 theorem slashExclusive_state {g : GT} (h : slashExclusive g = true) {s : Nat}
     (hd : hasAction g s (g.term "DIV") = true ∨ hasAction g s (g.term "DIVEQUAL") = true)
@@ -56,7 +86,7 @@ theorem slashExclusive_state {g : GT} (h : slashExclusive g = true) {s : Nat}
   | some row =>
     simp only [hrow] at hd hr
     have hok := allFrom_get (i := 0) h.2 hrow
-    simp only [slashRowOK, rowHas, Bool.or_eq_true, Bool.not_eq_true', Bool.and_eq_false_iff, Bool.or_eq_false_iff,
+    simp only [slashRowOK, slashRowOKI, rowHas, Bool.or_eq_true, Bool.not_eq_true', Bool.and_eq_false_iff, Bool.or_eq_false_iff,
       Bool.and_eq_true] at hok
     refine ⟨row, rfl, ?_⟩
     rcases hok with hno | hyes
@@ -65,6 +95,7 @@ theorem slashExclusive_state {g : GT} (h : slashExclusive g = true) {s : Nat}
         · rw [h1] at hd; cases hd
         · rw [h2] at hd; cases hd
       · rw [h3] at hr; cases hr
-    · exact ⟨hyes.1.1, hyes.1.2, hyes.2⟩
+    · exact ⟨by simpa [functionEndEntry] using hyes.1.1, by simpa [functionEndEntry] using hyes.1.2,
+        by simpa [functionEndEntry] using hyes.2⟩
 
 end CalmVerif.Model.GrammarFacts
